@@ -402,6 +402,17 @@ func genCachef(r *vlib.R, emit func(string)) {
 		}
 		as = append(as, fmt.Sprintf("%s/%d/%d", owner, typ, cov))
 	}
+	// alias chains: a CNAME's target is usually the owner of a later record of the same message
+	for i := range as {
+		p := strings.Split(as[i], "/")
+		if p[1] == "5" {
+			tgt := "www.victim.test."
+			if i+1 < len(as) && r.Chance(3, 4) {
+				tgt = strings.Split(as[i+1], "/")[0]
+			}
+			as[i] += "/" + tgt
+		}
+	}
 	emit(fmt.Sprintf("cachef run %s %s", qn, strings.ReplaceAll(listOrDash(as), ",", ";")))
 }
 
